@@ -345,6 +345,9 @@ pub enum Replies {
     Conformant,
     /// Anything at all: no reply, any report/ack from any address, unrelated messages, bus error.
     Arbitrary,
+    /// Conformant, except that the answer to every operation request is arbitrary
+    /// (so "no chunk before the matching acknowledgement" is exercised, also on retries).
+    ConformantAckArbitrary,
 }
 
 /// Symbolic bus.  P items of ILEN bytes each are the data the controller is expected to transfer.
@@ -494,6 +497,13 @@ impl<const P: usize, const ILEN: usize> SignBus for SymBus<P, ILEN> {
         let reply = match self.replies {
             Replies::Conformant => self.conformant_reply(e),
             Replies::Arbitrary => self.arbitrary_reply(),
+            Replies::ConformantAckArbitrary => {
+                if matches!(e, Exp::Request(_)) {
+                    self.arbitrary_reply()
+                } else {
+                    self.conformant_reply(e)
+                }
+            }
         };
         self.ctl.feed(abs_reply(&reply));
         if self.ctl.phase == Phase::Done && matches!(self.ctl.outcome, Outcome::Unexpected | Outcome::Bus) {
